@@ -54,6 +54,10 @@ class Rule:
         self.instances.append({"construct": construct, "verdict": "info", "detail": detail, "where": where})
 
     def violation(self, construct, message, where="", witness=None):
+        if "[not-modelled]" in str(message):
+            # the verdict derives from an evaluation the checker's interpreter could not carry out: that is the checker's limit, not a defect of the code
+            from .loader import AnalysisError
+            raise AnalysisError(f"{self.id} {construct}: {str(message)[:300]}")
         self.obligations += 1
         self.instances.append({"construct": construct, "verdict": "VIOLATION", "detail": message, "where": where})
         f = Finding(self.ctx.prop, self.id, construct, message, where, witness)
